@@ -60,6 +60,9 @@ var announcePool = [][]string{
 	{"permessage-deflate; client_no_context_takeover; server_no_context_takeover"},
 	{"permessage-deflate;server_no_context_takeover;client_no_context_takeover"},
 	{"permessage-deflate; server_no_context_takeover; client_no_context_takeover; server_max_window_bits=15"},
+	{"permessage-deflate; server_no_context_takeover; client_no_context_takeover; server_max_window_bits=16"},
+	{"permessage-deflate; server_no_context_takeover; client_no_context_takeover; server_max_window_bits=7; client_max_window_bits=0"},
+	{`permessage-deflate; server_no_context_takeover; client_no_context_takeover; server_max_window_bits="32"`},
 	{"permessage-deflate; server_no_context_takeover"},
 	{"permessage-deflate; client_no_context_takeover"},
 	{"permessage-deflate"},
